@@ -69,6 +69,16 @@ Theorem c15_stream_closed_any_ctx : forall conv res k e,
 Proof. exact produce_cancelled_closed. Qed.
 Print Assumptions c15_stream_closed_any_ctx.
 
+(* ---- KNOWN FINDING S11 (sqlite; listed in known_findings.json, carried by [emitted_when_abandoned]):
+        c15_stream_closed_any_ctx is about a consumer that keeps receiving. If the consumer takes [taken]
+        elements, cancels and stops reading, and the producer still has more than one element to send
+        (rows and its two unconditional error sends), the close is never emitted. *)
+Theorem c15_stream_closed_refuted_abandoned : forall conv rows k e taken,
+  (taken + 1 < length (firstn k rows) + e)%nat ->
+  ~ In SClose (emitted_when_abandoned (produce_cancelled conv (Some rows) k e) taken).
+Proof. exact abandoned_never_closed. Qed.
+Print Assumptions c15_stream_closed_refuted_abandoned.
+
 (* ---- Search: an invalid (empty) filter is rejected without a stream; otherwise the stream carries, newest
         submission first (ties in any order), exactly the stored plans matching all given filters, each once,
         with their stored projection, and is then closed; nothing else is ever sent. *)
@@ -295,3 +305,11 @@ Example ex_S9_never_closed_under_cancelled_ctx_is_refuted :
      TSearchCtx true {| f_ids := []; f_groups := []; f_statuses := [100]%N |} {| o_class := 1; o_items := []; o_err := false; o_closed := false |};
      TList true 0 {| o_class := 2; o_items := []; o_err := false; o_closed := false |}]) = [2; 3; 5]%nat.
 Proof. vm_compute. split; reflexivity. Qed.
+
+(* the S11 witness of the harness: 4 plans, List, one element taken, context cancelled, no more reads: the
+   producer has sent rows 1 and 2, sees ctx.Done at row 3 and blocks in its first error send *)
+Example ex_S11_witness :
+  let rows := [ex_row 1 7 40 0 Z0 Z0; ex_row 2 7 30 0 Z0 Z0; ex_row 3 7 20 0 Z0 Z0; ex_row 4 7 10 0 Z0 Z0] in
+  map (fun ev => match ev with SItem x => x_id x | SErr => 98%N | SClose => 99%N end)
+      (emitted_when_abandoned (produce_cancelled sq_result_of_row (Some rows) 2 2) 1) = [1; 2]%N.
+Proof. vm_compute. reflexivity. Qed.
